@@ -61,8 +61,15 @@ func (w *World) DataSigClass(sd *types.SignedData) string {
 }
 
 // ClassifyBlob decodes a DA blob the way a reader that knows the proposer's key would.
-func (w *World) ClassifyBlob(b []byte) F {
-	rec := F{"kind": "junk", "h": 0, "hash": "", "sig": "none", "ntx": 0, "txs": []string{}}
+func (w *World) ClassifyBlob(b []byte) (rec F) {
+	rec = F{"kind": "junk", "h": 0, "hash": "", "sig": "none", "ntx": 0, "txs": []string{}}
+	// the classification uses the repository's own decoders; if one of them panics on this blob that is for the node
+	// under observation to show, not for the observer to die of
+	defer func() {
+		if recover() != nil {
+			rec = F{"kind": "junk", "h": 0, "hash": "", "sig": "none", "ntx": 0, "txs": []string{}}
+		}
+	}()
 	if len(b) == 0 {
 		rec["kind"] = "emptyblob"
 		return rec
